@@ -2027,6 +2027,40 @@ def static_check(item, family, acc):
         return
     acc.state(0)
     check_roundtrips(acc, what, cls, obj, observer, case, nontrivial=nontrivial)
+    if family == "results" and hasattr(obj, "to_json"):
+        check_lazy_result(acc, what, cls, build, observer, case)
+
+
+def check_lazy_result(acc, what, cls, build, observer, case):
+    """a result read back from json keeps its members un-deserialised until they are used: that state is serialised
+    again, and the copy and the original are then used in either order; both must read as the eagerly built object"""
+    from cogent3.util.deserialise import deserialise_object
+
+    with warnings.catch_warnings():
+        warnings.simplefilter("ignore")
+        text = build().to_json()
+        eager = observer(deserialise_object(text), "json")  # the same text read into an object that is used on its own
+        for ch, fn in (("rich dict", lambda o: deserialise_object(o.to_rich_dict())), ("json", lambda o: deserialise_object(o.to_json())),
+                       ("deepcopy", copy.deepcopy), ("pickle", lambda o: pickle.loads(pickle.dumps(o)))):
+            for first in ("copy", "original"):
+                acc.case({"what": what, "channel": ch, "lazy": True, "used first": first, **case})
+                acc.transitions += 1
+                try:
+                    lazy = deserialise_object(text)
+                    dup = fn(lazy)
+                    order = (dup, lazy) if first == "copy" else (lazy, dup)
+                    obs = [observer(x, ch) for x in order]
+                except Exception as e:  # noqa: BLE001
+                    acc.fail(f"{what}: {ch} round trip of an object whose members are not yet deserialised raised {type(e).__name__}", dict(case, channel=ch, used_first=first),
+                             {"error": f"{type(e).__name__}: {e}"[:300]})
+                    continue
+                for who, o in zip(("the one used first", "the one used second"), obs):
+                    diff = first_difference(eager, o)
+                    if diff:
+                        acc.fail(f"{what}: {ch} round trip of an object whose members are not yet deserialised: {diff[0]} differs on {who} ({first} used first)",
+                                 dict(case, channel=ch, used_first=first), {"observable": diff[0], "got": diff[1], "want": diff[2]})
+                        break
+                acc.outcome((what, ch, "lazy", first))
 
 
 def static_run(spec, acc):
